@@ -26,6 +26,7 @@ type PartialFamily struct {
 	SetLimit int    // max size of verify/ingest/prune sets (0 = unlimited)
 	Collect  string // when set, violations of this property are collected instead of Prop's
 	Base     uint64 // > 0: started with NewMapPollardFromRoots on an accumulator of Base opaque leaves (TotalRows 63)
+	UndoAs   string // when set, states reached through an Undo report their clauses under this property (C06)
 }
 
 type partFrame struct {
@@ -392,7 +393,11 @@ func (f *PartialFamily) Step(n *Node, op Op) StepResult {
 	m, md, ok := f.run(x, hist)
 	res := StepResult{}
 	if ok {
-		res.Evals = checkPartial(x, f.Prop, m, md, op)
+		prop := f.Prop
+		if f.UndoAs != "" && md.hasUndo {
+			prop = f.UndoAs
+		}
+		res.Evals = checkPartial(x, prop, m, md, op)
 	}
 	x.CheckHeld()
 	res.Viol = x.Viol
@@ -562,7 +567,7 @@ func init() {
 			BFS(c, &PartialFamily{Nmax: nA, TR: tr, UndoBud: 1, FRBud: 1, Junk: true, Prop: "C09"}, 0)
 		}
 		nO := pick(c, 3, 4)
-		bases := pick(c, []uint64{32, 1<<31 + 1, 1<<62 + 1, 1<<63 - 4}, []uint64{31, 32, 33, 1<<31 - 1, 1 << 31, 1<<31 + 1, 1<<32 - 1, 1<<32 + 1, 1<<62 - 1, 1<<62 + 1, 1<<63 - 4})
+		bases := offsetBases(c.Thorough())
 		c.Cov.Bound["offset_start"] = fmt.Sprintf("NewMapPollardFromRoots at Base in %v, Nmax=%d added leaves, undo budget 1", bases, nO)
 		for _, b := range bases {
 			if c.Expired() {
